@@ -20,6 +20,7 @@ package splunk
 import (
 	"encoding/json"
 	"fmt"
+	"strconv"
 
 	"github.com/siglens/siglens/pkg/config"
 	writer "github.com/siglens/siglens/pkg/es/writer"
@@ -129,10 +130,42 @@ func getPLE(record map[string]interface{}, myid int64, tsKey *string, jsParsingS
 		}
 	}
 
-	ple, err := segwriter.GetNewPLE(recordAsBytes, tsNow, indexNameIn, tsKey, jsParsingStackbuf[:])
+	// the envelope's `time` is the event time; the arrival time is only for events without one
+	tsEvent := getHecEventTime(record)
+	if tsEvent == 0 {
+		tsEvent = tsNow
+	}
+
+	ple, err := segwriter.GetNewPLE(recordAsBytes, tsEvent, indexNameIn, tsKey, jsParsingStackbuf[:])
 	if err != nil {
 		return fmt.Errorf("Failed to get new PLE: %v", err), fasthttp.StatusServiceUnavailable, nil
 	}
 
 	return nil, fasthttp.StatusOK, ple
+}
+
+// Returns the `time` of the HEC envelope (epoch seconds, possibly fractional, given as a number
+// or as a numeric string) in epoch milliseconds, or 0 if the envelope has no usable time.
+func getHecEventTime(record map[string]interface{}) uint64 {
+	var epoch float64
+	switch val := record["time"].(type) {
+	case float64:
+		epoch = val
+	case string:
+		parsedVal, err := strconv.ParseFloat(val, 64)
+		if err != nil {
+			return 0
+		}
+		epoch = parsedVal
+	default:
+		return 0
+	}
+	if !(epoch > 0) {
+		return 0
+	}
+
+	// same unit detection as for the timestamp key of any other event
+	timeKey := "time"
+	doc := strconv.AppendFloat([]byte(`{"time":`), epoch, 'f', -1, 64)
+	return utils.ExtractTimeStamp(append(doc, '}'), &timeKey)
 }
